@@ -235,6 +235,8 @@ def _single_sym(r):
 
 def analyse_scan(prog, rep, kern, entry, loop, ext, data, listparam, mode, earlier=None):
     """one directional scan; returns (axis, direction, bound variable) or None"""
+    if not isinstance(loop, ast.For):
+        raise AnalysisIncomplete('%s: scan loop at line %d is not a for loop the syntactic fallback reads' % (entry, loop.lineno))
     rd = range_dir(loop.iter, ext)
     site = 'for %s in %s' % (norm(loop.target), norm(loop.iter))
     if rd is None or not isinstance(loop.target, ast.Name):
